@@ -203,12 +203,15 @@ fn ref_fold<'a>(it: impl Iterator<Item = &'a StreamEvent>) -> Fold {
         f.n += 1;
         f.sum += x;
         f.abs += x.abs();
+        // a reading that is not a number (NaN) is no candidate for the smallest / largest
+        // reading while there is any reading that is a number (IEEE minNum/maxNum, which does not
+        // depend on the order of the events); sum and average carry it as IEEE addition does
         f.min = Some(match f.min {
-            Some(m) if m <= x => m,
+            Some(m) if x.is_nan() || m <= x => m,
             _ => x,
         });
         f.max = Some(match f.max {
-            Some(m) if m >= x => m,
+            Some(m) if x.is_nan() || m >= x => m,
             _ => x,
         });
     }
@@ -234,7 +237,8 @@ impl Fold {
 fn close(a: Option<f64>, b: Option<f64>, tol: f64) -> bool {
     match (a, b) {
         (None, None) => true,
-        (Some(x), Some(y)) => x == y || (x - y).abs() <= tol,
+        // a tolerance that is itself not finite (infinite readings) allows nothing but equality
+        (Some(x), Some(y)) => x == y || (x.is_nan() && y.is_nan()) || (tol.is_finite() && (x - y).abs() <= tol),
         _ => false,
     }
 }
@@ -774,7 +778,7 @@ pub fn run_wm(d: u64, cap: usize, max_windows: usize, base: u64, evs: &[Ev], fro
                 || stats.newest_window_start != ws.last().map(|w| w.start_time)
                 || latest != ws.last().map(|w| w.start_time)
                 || with_type != non_empty
-                || !((across - sum_all).abs() <= tol || (across.is_nan() && sum_all.is_nan()))
+                || !(across == sum_all || (across - sum_all).abs() <= tol || (across.is_nan() && sum_all.is_nan()))
             {
                 r.flag(i, "aggregate", "WindowManager::summary-views-disagree-with-active_windows()", || {
                     format!(
